@@ -8,7 +8,7 @@ CLAIMED = {
                 note="all inputs are selectors: the solver's role is exhaustive enumeration; oracle vlib/dsl.py", tech=ENUM),
     "C07": dict(text="all histories of 2 (quick) / 3 calls x {elaborate, to_proto, netlist} x any non-empty subset of a 4-module DAG (shared sub-modules, bundle ports, anonymous bundle, port reference), in either order, alone or as a list; bytes equal those of a twin without history; second export identical; late parents see bundle-level ports; elaborated modules refuse additions",
                 note="separate processes are approximated by resetting hdl21's process-global caches and building fresh objects", tech=ENUM),
-    "C08": dict(text="a raising user pass at every position of the default pass list x every module of a shared DAG, every C02 fault class detected inside checking and rewriting passes, and a generator body raising 1..3 times; continuations: retry unchanged (same error), unrelated design, design sharing sub-modules, repair and retry; no later call returns a package a fresh twin would not give",
+    "C08": dict(text="a raising user pass at every position of the default pass list x every module of a shared DAG, every C02 fault class detected inside checking and rewriting passes, and a generator body raising 1..3 times; continuations: retry unchanged (same error), unrelated design, design sharing sub-modules, repair and retry, parent's instance of the offending module replaced by a valid module and re-exported (must equal a twin with the same edit history); no later call returns a package a fresh twin would not give",
                 note="selectors only; 'same error' compares exception type and message with file paths / addresses removed", tech=ENUM),
     "C10": dict(text="bundle trees of depth 3 with fan-out, 7 leaf kinds per level, flips at every level by flag and by flipped(), role of the instance, leaf widths, port vs internal: exact set of (name, width, direction) of the flattened ports against an independent parity / role oracle, and leaf-by-leaf pairing of a parent's bundle with the child's bundle port",
                 note="flags, kinds and small widths: solver-enumerated", tech=ENUM),
@@ -24,7 +24,7 @@ CLAIMED = {
                 note="selectors only; float fields compared with the float nearest the exact rational value", tech=ENUM),
     "C02": dict(text="22 single-fault classes planted by a symbolic fault planter (fault class x location x delta x width x array size) into a valid hierarchical design with bundle port, array, pair, port reference and no-connect; whether the mutated design really is ill-formed is decided by the independent validity predicate vlib.dsl.ref_valid; post: elaborate, to_proto and netlist each raise",
                 note="trusted: ref_valid (transcription of the property's list), CrossHair/z3; name clashes are checked on to_proto/netlist only (the export name space)", tech=E1),
-    "C05": dict(text="one harness per naming site (named / unnamed / shared no-connect, implicit port-reference signal, flattened bundle member, array element, pair member, underscore retry) with the DESIGNER'S NAME A SYMBOLIC STRING (any characters, length <= 3 quick / 5 thorough) and both declaration orders; identity-level post-condition on the elaborated objects; exported partition checked in the concrete replay",
+    "C05": dict(text="one harness per naming site (named / unnamed / shared no-connect, implicit port-reference signal, flattened bundle member, array element, pair member, underscore retry) with the DESIGNER'S NAME A SYMBOLIC STRING (any characters, length <= 3 quick / 8 thorough; the designer's object a signal, a port or an instance) and both declaration orders; identity-level post-condition on the elaborated objects; exported partition checked in the concrete replay",
                 note="protobuf rejects proxy strings: package-level observation only in replay; trusted CrossHair string theory (z3 seq)", tech=E1),
     "C09": dict(text="injectivity of generated names through the public ExternalModuleCall.name with SYMBOLIC STRING parameter values (printable ASCII, repr() stubbed exactly for that alphabet) plus solver-enumerated adversarial words (quotes, backslash, 'None', newline, non-ASCII); memoisation across call forms; names independent of 120 call orders of Series/MosStack/handing-on generators",
                 note="repr() stub is exact only on the admitted alphabet (pre-condition); md5 collision-freeness assumed past the 128-character switch", tech=E1),
@@ -34,11 +34,11 @@ CLAIMED = {
                 note="n bounded (<=3 quick, <=6 thorough); duck-typed params keep n symbolic (replay uses the real SeriesParams)", tech=E1),
     "C01": dict(text="7 design templates (slices/concats, port references + no-connects, bundles, arrays, pairs, hierarchy, construction styles) with symbolic widths, indices, sizes and connection selectors; exported package read as the VLSIR netlisters read it AND the emitted spice text, both compared with an independent union-find reference semantics on the leaf-level net partition, leaf devices and parameters",
                 note="trusted: reference semantics vlib/dsl.py (written from the documentation), package/spice readers vlib/pkgread.py, CrossHair/z3 + prelude", tech=E1),
-    "C06": dict(text="closure validator (unique names, definition before use, ports name signals, each target port connected exactly once, in-range width-equal targets) + from_proto + spice and spectre netlisters as a post-condition on every explored path of the design templates; repository examples and built-in generators as concrete seeds",
-                note="trusted: vlib/pkgread.check_package; concrete seeds are not solver-decided", tech=E1),
+    "C06": dict(text="closure validator (unique names, definition before use, ports name signals, each target port connected exactly once, in-range width-equal targets) + from_proto + spice and spectre netlisters as a post-condition on every explored path of the design templates; invented-name and namesake-external-module families (solver-enumerated); repository examples and built-in generators as concrete seeds",
+                note="trusted: vlib/pkgread.check_package; concrete seeds are not solver-decided; 1 known finding (same-named external modules of different domains are refused by the vlsirtools netlisters)", tech=E1),
     "C11": dict(text="to_proto(from_proto(P)) == P as a post-condition on every design-template path, plus parameter space (8 device kinds x mantissa x exponent x 21 prefixes, solver-enumerated), slice/concat index conventions (symbolic width and bounds) and external-module headers (14 spice types x directions x widths x order)",
                 note="values realise at the pydantic/protobuf boundary: bounded-exhaustive enumeration by the solver, no generalisation beyond the box", tech=E1),
-    "C03": dict(text="index/slice normalisation kernels decided over UNBOUNDED integers (w, a, b) for each constant step in +-1..+-6; nested slice/concat/reference resolution through the real elaborator+exporter compared with Python list slicing inside a bounded box (W<=3)",
+    "C03": dict(text="index/slice normalisation kernels decided over UNBOUNDED integers (w, a, b) for each constant step in +-1..+-6; nested slice/concat/reference resolution through the real elaborator+exporter compared with Python list slicing inside a bounded box (W<=3); every in-range slice selecting a bit (any step) must be accepted",
                 note="trusted: CrossHair 0.0.110 + prelude work-arounds (pydantic validation stub, format stub), z3, closed-form CPython slice oracle, pkg_nets reader", tech=E1),
     "C14": dict(text="the real source of hdl21/prefix.py executed symbolically over a Decimal model (two-integer coefficient/exponent, 28-digit context) with symbolic mantissas; unary ops for 25-digit mantissas, binary ops and comparisons in stated smaller boxes; QF_FP lemma for float() when computed by float multiplication",
                 note="trusted: Decimal model (validated differentially against the real library on every run: gate), CrossHair/z3, CPython float(Decimal) correct rounding", tech=E1 + "; prefix.py source exec'ed over a Decimal model; z3 QF_FP query for float()"),
